@@ -44,16 +44,25 @@ where
 
       source.inner_subscribe(sctl.new_observer(
         move |_, x| {
-          let mut n = n.write().unwrap();
-          if *n == 0 {
-            sctl_next.sink_next(sbj_next.read().unwrap().observable());
+          // decide under the lock, call downstream without it (a callback may re-enter)
+          let (open, close, window) = {
+            let mut n = n.write().unwrap();
+            let open = *n == 0;
+            *n += 1;
+            let close = *n == count;
+            let window = sbj_next.read().unwrap().clone();
+            if close {
+              *sbj_next.write().unwrap() = subjects::Subject::<Item>::new();
+              *n = 0;
+            }
+            (open, close, window)
+          };
+          if open {
+            sctl_next.sink_next(window.observable());
           }
-          sbj_next.read().unwrap().next(x);
-          *n += 1;
-          if *n == count {
-            sbj_next.read().unwrap().complete();
-            *sbj_next.write().unwrap() = subjects::Subject::<Item>::new();
-            *n = 0;
+          window.next(x);
+          if close {
+            window.complete();
           }
         },
         move |_, e| {
